@@ -86,7 +86,7 @@ fn call(re: &Regex, text: &str, kind: usize) -> Res {
         },
         // a replacer may use the regex it is called from (re-entrancy on the same thread)
         6 => {
-            if text.len() > 10_000 {
+            if text.len() > 100_000 {
                 return Res::Repl(Ok(String::new()));
             }
             Res::Repl(
@@ -101,7 +101,7 @@ fn call(re: &Regex, text: &str, kind: usize) -> Res {
         }
         // a panic in a user callback is the caller's business: it must not break later calls (nothing may stay locked)
         _ => {
-            if text.len() > 10_000 {
+            if text.len() > 100_000 {
                 return Res::Repl(Ok(String::new()));
             }
             let r = catch_unwind(AssertUnwindSafe(|| re.try_replacen(text, 1, |_: &fancy_regex::Captures<'_>| -> String { panic!("replacer panics") }).map(|c| c.into_owned()).map_err(|e| engine::err_kind(&e))));
@@ -341,7 +341,7 @@ const ITER_STATE: &[(&str, &str)] = &[
 
 pub fn run(ctx: &RunCtx) -> Outcome {
     let mut o = Outcome::default();
-    o.rule = format!("(1) corpus of {} delegated and VM-compiled patterns (with delegates, counters, atomic groups, look-arounds, back-references, \\G, \\K, conditionals) x {} texts; rounds of 2..16 threads started behind a barrier, each running a proptest-generated sequence of calls ({}) through one shared &Regex per pattern, through clones made beforehand and through clones made concurrently inside the threads; (2) after each round a hot-spot phase in which all threads hammer one VM pattern on the text that needs the most backtracks through one shared instance (and clones of it) whose backtrack limit is only a third above that need, or one of {} (pattern, text) pairs on which the iterators carry state between searches (skipped empty match, \\G), plus regexes built with RegexBuilder::case_insensitive / backtrack_limit (clones must keep the options), a \\K pattern behind a 300-alternative program and a search ending in StackOverflow on a 600000-character text (error path); every second such round runs on a freshly compiled instance whose first searches are the threads' concurrent calls; (3) rounds over freshly generated patterns: proptest byte vectors decoded into ASTs of the unrestricted grammar, kept if VM-compiled and cheap (<= 20000 backtracks on every text), three per round x 12 short texts. Every result must equal the single-threaded result computed beforehand, no call may panic, and every round must finish: a round in which no thread finishes a call for {} s while threads are still out is reported as a deadlock. Static part: a separate crate asserting Regex: Send + Sync + Clone must build. Non-trivial = a call on a shared instance of a VM pattern with >= 1 delegate that started while another thread was inside a call on the same instance (measured with an atomic in-flight counter). Distinct = distinct (round, thread, step).", PATTERNS.len(), TEXTS.len(), KIND_NAMES.join(", "), ITER_STATE.len() + 7, STUCK_SECS);
+    o.rule = format!("(1) corpus of {} delegated and VM-compiled patterns (with delegates, counters, atomic groups, look-arounds, back-references, \\G, \\K, conditionals) x {} texts; rounds of 2..16 threads started behind a barrier, each running a proptest-generated sequence of calls ({}) through one shared &Regex per pattern, through clones made beforehand and through clones made concurrently inside the threads; (2) after each round a hot-spot phase in which all threads hammer one VM pattern on the text that needs the most backtracks through one shared instance (and clones of it) whose backtrack limit is only a third above that need, or one of {} (pattern, text) pairs on which the iterators carry state between searches (skipped empty match, \\G), plus regexes built with RegexBuilder::case_insensitive / backtrack_limit (clones must keep the options), a \\K pattern behind a 300-alternative program and a search ending in StackOverflow on a 600000-character text (error path); every second such round runs on a freshly compiled instance whose first searches are the threads' concurrent calls; (3) rounds over freshly generated patterns: proptest byte vectors decoded into ASTs of the unrestricted grammar, kept if VM-compiled and cheap (<= 20000 backtracks on every text), three per round x 12 short texts. Every result must equal the single-threaded result computed beforehand, no call may panic, and every round must finish: a round in which no thread finishes a call for {} s while threads are still out is reported as a deadlock. Static part: a separate crate asserting Regex: Send + Sync + Clone must build. Non-trivial = a call on a shared instance of a VM pattern with >= 1 delegate that started while another thread was inside a call on the same instance (measured with an atomic in-flight counter). Distinct = distinct (round, thread, step).", PATTERNS.len(), TEXTS.len(), KIND_NAMES.join(", "), ITER_STATE.len() + 8, STUCK_SECS);
     o.assumptions = vec![
         "the thread schedule is the operating system's: this is the one property where generated-input search is weak; the check can only report a violation it happens to provoke".into(),
         "regex-automata's internal pool cannot be put under a controlled scheduler with the installed tooling".into(),
@@ -419,6 +419,7 @@ pub fn run(ctx: &RunCtx) -> Outcome {
         ("((?:a|b)*)(?!c)".to_string(), big_text, Recipe::default(), "iterator-state / error path (searches ending in StackOverflow, then more searches)"),
         // wholly delegated patterns whose later searches depend on what precedes the search position
         ("(?m)^\\w".to_string(), "a\nb\nc d\ne".to_string(), Recipe::default(), "iterator-state / delegated pattern with start-of-line context"),
+        ("(?m)^b".to_string(), format!("{}b\n{}b", "aaaaaaaaaaaaaaaaaaaaaaaaaaaaaaaaaaaaaaa\n".repeat(120), "aaaaaaaaaaaaaaaaaaaaaaaaaaaaaaaaaaaaaaa\n".repeat(120)), Recipe::default(), "iterator-state / delegated pattern with start-of-line context"),
         ("\\b\\w|^x".to_string(), "ab cd ef".to_string(), Recipe::default(), "iterator-state / delegated pattern with start-of-line context"),
     ];
     for (p, t, rec, mode) in extra {
@@ -506,7 +507,7 @@ pub fn run(ctx: &RunCtx) -> Outcome {
             todo.push(*hots[round % hots.len()]);
         }
         for (pi, ti, mode) in todo {
-            let reps = if hot_world.texts[ti].len() > 10_000 { 3usize } else { 60usize };
+            let reps = if hot_world.texts[ti].len() > 100_000 { 3usize } else if mode.contains("delegated pattern") { 400usize } else { 60usize };
             match hammer_round(&hot_world, &counters, pi, ti, nthreads, reps, round, mode) {
                 Err(what) => {
                     first_fail = Some(stuck(what, json!({"round": round, "threads": nthreads, "mode": mode, "pattern": hot_world.pats[pi], "text": short(&hot_world.texts[ti])})));
